@@ -142,13 +142,14 @@ class Exec:
         from .aworld import HandlerCall
         if m.group(3) == 'echo':
             self.echo_n += 1
-            reply = 'S%d.%d~re:%s' % (s.ord, 100000 + self.echo_n, m.group(2))
+            reply = 'S%d.%d~re:%s%s' % (s.ord, 100000 + self.echo_n, m.group(2), data[m.end():])
             rec = HandlerCall('send', (sid, reply), self.now)
             rec.sess = s
             s.app_sent.append({'t': self.now, 'tag': find_tag(reply), 'data': reply, 'call': rec,
                                'step': len(self.actions), 'target_state': None, 'settled': False,
                                'after': set(x['tag'] for x in s.app_sent if x['call'].done),
                                'upg_state': self.upg_state(s), 'in_handler': True,
+                               'unencodable': any(0xd800 <= ord(ch) <= 0xdfff for ch in reply),
                                'poll_pending': any(not q.done for q in s.polls)})
             return [('send', reply, rec)]
         rec = HandlerCall('disconnect', (sid,), self.now)
@@ -378,6 +379,16 @@ class Exec:
         """'open' while an accepted upgrade socket exists on which the client has so far sent a
         strict prefix of the correct handshake and which nobody has closed."""
         c = s.upg
+        others = [a for a in s.upg_attempts
+                  if a['conn'] is not c and a['conn'] is not s.main_ws and a['conn'].accepted and
+                  not (a['conn'].done or a['conn'].peer_closed or a['conn'].failed or
+                       a['conn'].server_closed)]
+        if others:
+            s.multi_upg = True
+        if getattr(s, 'multi_upg', False):
+            # several upgrade sockets were open on this session at once: the statement speaks of
+            # one handshake at a time, what polls return meanwhile is not judged any more
+            return 'mixed'
         if c is None or s.main_ws is not None or not c.accepted or c.done or c.peer_closed \
                 or c.failed or c.server_closed:
             return 'none'
@@ -600,6 +611,11 @@ class Exec:
         s = self.sess(a['s'])
         if s is None or self.sid_of(s) is None:
             return
+        if a.get('stale_first'):
+            # the client opens two upgrade sockets; the first one stays silent for now
+            self.op_upg_connect({k: v for k, v in a.items() if k != 'stale_first'})
+            if a.get('settle', True):
+                self.settle()
         q = 'transport=%s&EIO=4&sid=%s' % (a.get('qtransport', 'websocket'), self.sid_of(s))
         hdr = a.get('hdr')
         if hdr is not None:
@@ -617,6 +633,10 @@ class Exec:
         else:
             conn = self.world.ws_open(q, headers=[('Host', 'localhost')])
         conn.role, conn.sess = 'upgrade', s
+        if any(a['conn'].accepted and not (a['conn'].done or a['conn'].peer_closed or
+                                           a['conn'].failed or a['conn'].server_closed)
+               and a['conn'] is not s.main_ws for a in s.upg_attempts):
+            s.multi_upg = True
         s.upg = conn
         s.upg_attempts.append({'conn': conn, 'frames': [], 't': self.now,
                                'step': len(self.actions),
@@ -625,6 +645,21 @@ class Exec:
                                'main_was_dead': s.main_ws is not None and (
                                    s.main_ws.done or s.main_ws.peer_closed or
                                    s.main_ws.failed or s.main_ws.server_closed)})
+
+    def op_upg_swap(self, a):
+        """The client turns to an older upgrade socket of the session that is still open (two
+        handshakes overlapping on one session): it becomes the 'current' one."""
+        s = self.sess(a['s'])
+        if s is None:
+            return
+        for att in s.upg_attempts:
+            c = att['conn']
+            if c is s.upg or c is s.main_ws or not c.accepted or c.done or c.peer_closed or \
+                    c.failed or c.server_closed:
+                continue
+            s.upg = c
+            att['swapped'] = True
+            return
 
     def _sock(self, s, which):
         if s is None:
@@ -1001,6 +1036,10 @@ def client_payload(draw, s_ord, seq, reactions=None, empties_pct=0):
         k = draw(st.integers(0, 99))
         for name, pct in reactions:
             if k < pct:
+                if name == 'echo-surrogate':
+                    # a JSON string literal holding a lone surrogate: legal JSON text, decodes
+                    # to a str that UTF-8 cannot carry; the handler sends its tail back
+                    return json.dumps(tag + '!echo\ud800')
                 return tag + '!' + name
             k -= pct
     kind = draw(st.sampled_from(['text', 'text', 'json', 'bytes', 'jsontext', 'qtext', 'wide']))
@@ -1049,7 +1088,7 @@ class Drawer:
         opts = [('open', W.get('open', 3) if len(ex.sessions) < self.profile.get('max_sessions', 3)
                  else 0)]
         if have:
-            for k in ('poll', 'post', 'upg_connect', 'ws_send', 'ws_close', 'ws_fail',
+            for k in ('poll', 'post', 'upg_connect', 'upg_swap', 'ws_send', 'ws_close', 'ws_fail',
                       'ws_soft_fail', 'pong', 'app_send', 'app_burst', 'app_disconnect', 'api', 'vanish', 'request',
                       'probe_step'):
                 opts.append((k, W.get(k, 0)))
@@ -1159,6 +1198,21 @@ class Drawer:
                                                            'upgrade']))
         return a
 
+    def a_upg_swap(self):
+        # prefer a session that has an older open upgrade socket
+        cand = [k for k, x in enumerate(self.ex.sessions)
+                if sum(1 for att in x.upg_attempts
+                       if att['conn'].accepted and not att['conn'].done and
+                       att['conn'] is not x.main_ws and att['conn'] is not x.upg) > 0]
+        if not cand:
+            # none yet: open another upgrade socket next to the current one
+            cur = [k for k, x in enumerate(self.ex.sessions)
+                   if x.upg is not None and not x.upg.done and x.main_ws is None]
+            if not cur:
+                return None
+            return {'op': 'upg_connect', 's': cur[self.draw(st.integers(0, len(cur) - 1))]}
+        return {'op': 'upg_swap', 's': cand[self.draw(st.integers(0, len(cand) - 1))]}
+
     def a_probe_step(self):
         """The next correct step of the upgrade handshake for some session (or a wrong one)."""
         d = self.draw
@@ -1174,6 +1228,8 @@ class Drawer:
             i = self.session_index()
         s = self.ex.sessions[i]
         if s.upg is None or s.upg.done or s.upg is s.main_ws:
+            if d(st.integers(0, 99)) < self.profile.get('stale_socket_pct', 0):
+                return {'op': 'upg_connect', 's': i, 'stale_first': True}
             return {'op': 'upg_connect', 's': i}
         att = [x for x in s.upg_attempts if x['conn'] is s.upg][0]
         n = len(att['frames'])
@@ -1290,7 +1346,7 @@ class Drawer:
     def a_fault(self):
         return {'op': 'fault', 'event': self.draw(st.sampled_from(['message', 'disconnect'])),
                 'exc': self.draw(st.sampled_from(['RuntimeError', 'RuntimeError', 'TypeError',
-                                                  'KeyError', 'OSError']))}
+                                                  'KeyError', 'OSError', 'CancelledError']))}
 
     def a_advance(self):
         d = self.draw
@@ -1360,6 +1416,16 @@ class Drawer:
             hdrs.append(['Origin', d(st.sampled_from(['http://localhost', 'http://evil.example',
                                                       '', 'http://b\u00fccher.example',
                                                       'http://\u2603.example']))])
+        if d(st.integers(0, 4)) == 0:
+            hdrs.append(['Host', d(st.sampled_from(['localhost', 'app.example.com:8080']))])
+        if d(st.integers(0, 5)) == 0:
+            # what a reverse proxy adds (with or without passing a Host header on)
+            k = d(st.sampled_from(['proto', 'host', 'both']))
+            if k in ('proto', 'both'):
+                hdrs.append(['X-Forwarded-Proto', d(st.sampled_from(['https', 'https, http']))])
+            if k in ('host', 'both'):
+                hdrs.append(['X-Forwarded-Host', d(st.sampled_from(['public.example.org',
+                                                                    'public.example.org, inner']))])
         if d(st.integers(0, 3)) == 0:
             hdrs.append(['Accept-Encoding', d(st.sampled_from([
                 'gzip', 'deflate', 'br', 'GZIP', 'Deflate', 'gzip;q=0.5', 'br, GZip', 'deflate, gzip',
